@@ -48,7 +48,7 @@ def lowered_params(name, variant=0):
     sig = inspect.signature(getattr(ta, name))
     ints = []
     for pn, p in sig.parameters.items():
-        if pn in ('candles', 'sequential') or pn in NOT_PERIOD:
+        if pn in ('candles', 'sequential') or pn in NOT_PERIOD or pn.startswith(('dev', 'mult', 'nbdev')):
             continue
         if isinstance(p.default, bool) or not isinstance(p.default, int):
             continue
@@ -59,6 +59,14 @@ def lowered_params(name, variant=0):
         lo = min(d for _, d in ints)
         for pn, d in ints:
             kw[pn] = (2 if d == lo else 3) + variant
+    # deviation / multiplier parameters get pairwise different values (a swapped or reused argument must be visible)
+    k = 0
+    for pn, p in sig.parameters.items():
+        if isinstance(p.default, bool) or not isinstance(p.default, (int, float)) or pn in kw:
+            continue
+        if pn.startswith(('dev', 'mult', 'nbdev')) and pn not in NOT_PERIOD and p.default > 0:
+            kw[pn] = float(p.default) * (1.0 + 0.5 * k)
+            k += 1
     return kw, sig
 
 
